@@ -55,6 +55,7 @@ pub fn replay_tasks(input: &str, output: &str) {
     let q0: Joints = [0.1, 0.2, -0.3, 0.4, 0.8, -0.2];
     let mut evals = 0u64;
     let mut nontrivial = 0u64;
+    let mut divergences = 0u64;
     for (id, line) in lines.iter().enumerate() {
         let tool = line["tool"].as_bool().unwrap();
         let base = line["base"].as_bool().unwrap();
@@ -64,13 +65,56 @@ pub fn replay_tasks(input: &str, output: &str) {
         let must: Vec<BTreeSet<(u64, u64)>> = line["must"].as_array().unwrap().iter().map(pair_set).collect();
         if !line["table"].as_array().unwrap().is_empty() { nontrivial += 1; }
         let desc = json!({"tool": tool, "base": base, "nenv": nenv, "table": line["table"]});
+        // A pair missing from the enumerated tasks is only a DIVERGENCE from the specified algorithm (the code may
+        // prune or order the evaluation differently); it becomes a violation when CONFIRMED at the verdict level: a
+        // scene in which exactly that pair overlaps, and the API does not report it / offers the colliding offset.
+        let confirm = |api: &str, k: usize, p: &(u64, u64)| -> Option<bool> {
+            let (a, b) = (p.0 as usize, p.1 as usize);
+            let mut sc2 = Scene::spread(tool, base, nenv);
+            sc2.place_next(a, b, -0.004);
+            let table = &line["table"];
+            match api {
+                "non_colliding_offsets" => {
+                    let j = k; // joints 0..k-1 unmoved: joint k is the one replaced
+                    let mut cand = q0;
+                    cand[j] += 0.3;
+                    let body = scene::build(&sc2, &kin, &cand, &Isometry3::identity(), safety_from(table, 0, 0, CheckMode::FirstCollisionOnly));
+                    if body.collides(&q0, &kin) { return None; } // precondition (free initial vector) not met: undecided
+                    let mut from = q0;
+                    let mut to = q0;
+                    from[j] -= 0.3;
+                    to[j] += 0.3;
+                    let offered = body.non_colliding_offsets(&q0, &from, &to, &kin);
+                    Some(!offered.iter().any(|v| *v == cand))
+                }
+                "near" | "near-with-other-body-table" => {
+                    let own = if api == "near" { json!([]) } else { json!([[0, 2, -1000000], [3, BASE, -1000000], [1, TOOL, -1000000], [5, ENV0, -1000000]]) };
+                    let body = scene::build(&sc2, &kin, &q0, &Isometry3::identity(), safety_from(&own, 0, 0, CheckMode::AllCollsions));
+                    let rep = body.near(&q0, &kin, &safety_from(table, 0, 0, CheckMode::AllCollsions));
+                    Some(rep.iter().any(|x| (x.0.min(x.1), x.0.max(x.1)) == (a, b)))
+                }
+                "collides" => {
+                    let body = scene::build(&sc2, &kin, &q0, &Isometry3::identity(), safety_from(table, 0, 0, CheckMode::AllCollsions));
+                    Some(body.collides(&q0, &kin))
+                }
+                _ => {
+                    let body = scene::build(&sc2, &kin, &q0, &Isometry3::identity(), safety_from(table, 0, 0, CheckMode::AllCollsions));
+                    Some(body.collision_details(&q0, &kin).iter().any(|x| (x.0.min(x.1), x.0.max(x.1)) == (a, b)))
+                }
+            }
+        };
         let mut judge = |api: &str, k: usize, tasks: &BTreeSet<(u64, u64)>, out: &mut Out| {
             for p in must[k].difference(tasks) {
-                out.put(json!({"sig": format!("tasks:{}:pair-not-evaluated:{}:{}", api, category(p), if k == 0 { "full-check" } else { "after-single-joint-move" }),
-                    "detail": format!("pair {:?} must be evaluated (joints 0..{} unmoved) but no task was enumerated; {}", p, k, desc), "data": desc}));
+                divergences += 1;
+                if let Some(false) = guarded(|| confirm(api, k, p)).unwrap_or(Some(false)) {
+                    out.put(json!({"sig": format!("tasks:{}:pair-not-evaluated:{}:{}", api, category(p), if k == 0 { "full-check" } else { "after-single-joint-move" }),
+                        "detail": format!("pair {:?} must be evaluated (joints 0..{} unmoved): no task was enumerated AND a scene in which exactly this pair overlaps is not reported / its offset is offered; {}", p, k, desc), "data": desc}));
+                }
             }
             for p in tasks.difference(&relevant) {
-                out.put(json!({"sig": format!("tasks:{}:irrelevant-pair-evaluated:{}", api, category(p)), "detail": format!("pair {:?}; {}", p, desc), "data": desc}));
+                // evaluating an irrelevant pair is harmless unless it is also reported (judged by Trace_Collision)
+                let _ = p;
+                divergences += 1;
             }
         };
         // (0) the safety distance of every relevant pair, in either argument order, is the spec's Rmin
@@ -128,7 +172,7 @@ pub fn replay_tasks(input: &str, output: &str) {
         }
         if id == 3 { out.put(json!({"sample": {"config": desc, "must_full": line["must"][0], "must_after_J4_moved": line["must"][3]}})); }
     }
-    out.put(json!({"stats": {"lines": lines.len(), "evaluations": evals, "nontrivial": nontrivial}}));
+    out.put(json!({"stats": {"lines": lines.len(), "evaluations": evals, "nontrivial": nontrivial, "divergences": divergences}}));
     out.finish();
 }
 
